@@ -11,14 +11,19 @@ mod c23;
 mod c25;
 mod c26;
 mod c27;
+mod c29;
+mod c30;
 mod c32;
 mod c33;
 mod c35;
 mod c36;
+mod c37;
+mod c38;
 mod c39;
 mod c40;
 mod rawarena;
 mod unitvm;
+mod wdog;
 
 fn main() {
     let args = Args::parse();
@@ -33,10 +38,14 @@ fn main() {
         "C25" => c25::run(&args, &mut rep),
         "C26" => c26::run(&args, &mut rep),
         "C27" => c27::run(&args, &mut rep),
+        "C29" => c29::run(&args, &mut rep),
+        "C30" => c30::run(&args, &mut rep),
         "C32" => c32::run(&args, &mut rep),
         "C33" => c33::run(&args, &mut rep),
         "C35" => c35::run(&args, &mut rep),
         "C36" => c36::run(&args, &mut rep),
+        "C37" => c37::run(&args, &mut rep),
+        "C38" => c38::run(&args, &mut rep),
         "C39" => c39::run(&args, &mut rep),
         "C40" => c40::run(&args, &mut rep),
         _ => {
